@@ -269,14 +269,15 @@ def run_impl_parallel(fn_module: str, fn_name: str, cases: list, procs: int | No
 # --------------------------------------------------------------------------- findings
 
 
-def load_known(prop_id: str) -> list[dict]:
+def load_known(prop_id: str, cross: bool = False) -> list[dict]:
     if not KNOWN.exists():
         return []
     data = json.loads(KNOWN.read_text())
     # Findings of the model-E family name the predicate they violate in their signature ("prop"):
     # the same defect is met by every check whose histories reach it, so those entries are
     # matched (by signature) whatever property is being checked.
-    return [e for e in data.get("known", []) if e.get("property") == prop_id or "prop" in e.get("signature", {})]
+    return [e for e in data.get("known", [])
+            if e.get("property") == prop_id or (cross and "prop" in e.get("signature", {}))]
 
 
 def matches_known(entry: dict, signature: dict) -> bool:
@@ -391,7 +392,7 @@ def run_check(spec: Spec, tier: str, seed: int, replay_path: str | None = None) 
         (REPLAYS / f"debug-{spec.prop_id}.json").write_text(json.dumps(
             [{"kind": f.kind, "name": f.name, "sig": f.signature, "detail": f.detail, "case": f.case} for f in ctx.failures],
             indent=1, default=str))
-    known = load_known(spec.prop_id)
+    known = load_known(spec.prop_id, cross=True)
     # proof obligations that no longer check
     for prob in aud["problems"]:
         ctx.fail("proof", None, prob, name=prob.split(":")[0])
